@@ -279,11 +279,42 @@ def direct_read(doc):
         for sr in r.getListOfProducts():
             st_[sr.getSpecies()] = st_.get(sr.getSpecies(), 0.0) + sr.getStoichiometry()
         fbc = r.getPlugin("fbc")
-        lb = params.get(fbc.getLowerFluxBound()) if fbc and fbc.isSetLowerFluxBound() else None
-        ub = params.get(fbc.getUpperFluxBound()) if fbc and fbc.isSetUpperFluxBound() else None
+        lb = ub = None
+        if fbc is not None and fbc.isSetLowerFluxBound():
+            lb = params.get(fbc.getLowerFluxBound())
+        if fbc is not None and fbc.isSetUpperFluxBound():
+            ub = params.get(fbc.getUpperFluxBound())
+        if fbc is None and r.isSetKineticLaw():
+            # legacy encoding: bounds as parameters of the kinetic law
+            kl = r.getKineticLaw()
+            plb, pub = kl.getParameter("LOWER_BOUND"), kl.getParameter("UPPER_BOUND")
+            lb = plb.getValue() if plb is not None else None
+            ub = pub.getValue() if pub is not None else None
         rx[r.getIdAttribute()] = ({k: v for k, v in st_.items() if v != 0}, lb, ub)
     mf = model.getPlugin("fbc")
     obj, sense = {}, None
+    if mf is not None and mf.getNumFluxBounds():
+        # fbc version 1: bounds as a list of (reaction, operation, value)
+        v1 = {}
+        for fb in mf.getListOfFluxBounds():
+            cur = v1.setdefault(fb.getReaction(), [None, None])
+            op = fb.getOperation()
+            if op in ("greaterEqual", "equal"):
+                cur[0] = fb.getValue()
+            if op in ("lessEqual", "equal"):
+                cur[1] = fb.getValue()
+        for rid_, (lo, hi) in v1.items():
+            if rid_ in rx:
+                rx[rid_] = (rx[rid_][0], lo, hi)
+    if mf is None:
+        # legacy: objective coefficients as kinetic-law parameters, maximisation implied
+        for r in model.getListOfReactions():
+            if r.isSetKineticLaw():
+                pc = r.getKineticLaw().getParameter("OBJECTIVE_COEFFICIENT")
+                if pc is not None and pc.getValue() != 0:
+                    obj[r.getIdAttribute()] = pc.getValue()
+        if obj:
+            sense = "max"
     if mf is not None and mf.getNumObjectives():
         o = mf.getActiveObjective() or mf.getObjective(0)
         sense = "max" if o.getType() == "maximize" else "min"
@@ -469,9 +500,10 @@ def check_third_party(case, ctx):
         if doc.getModel() is None or doc.getNumErrors(libsbml.LIBSBML_SEV_ERROR) or doc.getNumErrors(libsbml.LIBSBML_SEV_FATAL):
             return {"nontrivial": False, "classes": classes + ["not-a-valid-file"]}
         fbc_doc = doc.getPlugin("fbc")
-        if fbc_doc is None or fbc_doc.getPackageVersion() != 2:
-            return {"nontrivial": False, "classes": classes + ["not-fbc-v2"]}
-        n_eff = apply_edits(doc, case["edits"])
+        encoding = "legacy" if fbc_doc is None else f"fbc-v{fbc_doc.getPackageVersion()}"
+        classes.append(f"encoding-{encoding}")
+        edits = case["edits"] if encoding == "fbc-v2" else [e_ for e_ in case["edits"] if e_[0] in ("stoich_value", "add_ref", "remove_ref")]
+        n_eff = apply_edits(doc, edits)
         doc.checkInternalConsistency()
         if doc.getNumErrors(libsbml.LIBSBML_SEV_ERROR) or doc.getNumErrors(libsbml.LIBSBML_SEV_FATAL):
             return {"nontrivial": False, "classes": classes + ["edit-made-invalid"]}
@@ -499,7 +531,7 @@ def tp_phase(ctx):
 def phases(tier):
     if tier == "quick":
         return [Phase("roundtrip", rt_phase, shards=6, params={"max_examples": 100, "budget_s": 70, "crash_journal": True, "crash_is_violation": True}),
-                Phase("third_party", tp_phase, shards=2, params={"max_examples": 60, "budget_s": 70})]
+                Phase("third_party", tp_phase, shards=2, params={"max_examples": 100, "budget_s": 70})]
     return [Phase("roundtrip", rt_phase, shards=12, params={"max_examples": 1500, "budget_s": 520, "crash_journal": True, "crash_is_violation": True}),
             Phase("third_party", tp_phase, shards=4, params={"max_examples": 600, "budget_s": 520, "large": True})]
 
